@@ -41,12 +41,12 @@ func init() {
 }
 
 type sessCfg struct {
-	proto       string
-	n, t        int
-	sel         []int
-	nn, nt      int
-	key         string
-	cost        float64
+	proto  string
+	n, t   int
+	sel    []int
+	nn, nt int
+	key    string
+	cost   float64
 }
 
 func (c sessCfg) P() core.P {
